@@ -242,6 +242,17 @@ impl Property for C09Prop {
                         return fail("C09:at:captured", format!("`{text}`: {why}"));
                     }
                 }
+                // the index inside a stage of an iterator pipeline that is collected (the gather idiom): an
+                // index out of bounds ends the collection with the error, not with what was gathered so far
+                {
+                    let text = format!("f := (s: {param_ty}, i: int) -> any {{ g := [0, i]~ @ (j: int) -> any {{ return s[j * 1]; }} $]; return (g[1], std.len(s)); }}; f({seq_text}, {})", bound_text(Some(i)));
+                    stats.eval();
+                    let o = run::run_text(&text, true);
+                    let want: Result<Json, &'static str> = if n == 0 { Err("IndexOutOfBounds") } else { both.clone() };
+                    if let Err(why) = compare(&o, &want, true) {
+                        return fail("C09:at:gather", format!("`{text}`: {why}"));
+                    }
+                }
                 // the index as the tested expression of an if-set / while-set: an index out of bounds is an
                 // error there too, not a failed test
                 for text in [
